@@ -32,6 +32,12 @@ impl Tier {
     }
 }
 
+/// Where evidence / replays / scratch files go: /verif, or $VERIF_OUT_DIR for scratch sweeps that must not
+/// touch the real evidence files (never set by the registered commands).
+pub fn out_dir() -> String {
+    std::env::var("VERIF_OUT_DIR").unwrap_or_else(|_| "/verif".to_string())
+}
+
 pub struct Ctx {
     pub id: String,
     pub tier: Tier,
@@ -330,11 +336,11 @@ pub fn finish(ctx: &Ctx, stats: Stats, meta: Meta) -> i32 {
     let real: Vec<&Violation> = stats.violations.iter().collect();
     let real_count = stats.violation_count;
 
-    let _ = std::fs::create_dir_all("/verif/replays");
-    let _ = std::fs::create_dir_all("/verif/evidence");
+    let _ = std::fs::create_dir_all(format!("{}/replays", out_dir()));
+    let _ = std::fs::create_dir_all(format!("{}/evidence", out_dir()));
     let mut lines = Vec::new();
     for (i, v) in real.iter().enumerate().take(10) {
-        let path = format!("/verif/replays/{}-{}-{}-{}-{}.json", ctx.id, ctx.tier.name(), ctx.seed, v.stage, v.case);
+        let path = format!("{}/replays/{}-{}-{}-{}-{}.json", out_dir(), ctx.id, ctx.tier.name(), ctx.seed, v.stage, v.case);
         let body = json!({
             "property": ctx.id, "tier": ctx.tier.name(), "seed": ctx.seed,
             "stage": v.stage, "case": v.case, "signature": v.signature,
@@ -388,7 +394,7 @@ pub fn finish(ctx: &Ctx, stats: Stats, meta: Meta) -> i32 {
         "verdict": if real_count > 0 { "violated" } else if !stats.harness_errors.is_empty() { "harness-error" } else { "held on what was observed" },
     });
     if ctx.replay.is_none() {
-        let path = format!("/verif/evidence/{}.json", ctx.id);
+        let path = format!("{}/evidence/{}.json", out_dir(), ctx.id);
         if let Err(e) = std::fs::write(&path, serde_json::to_string_pretty(&ev).unwrap()) {
             eprintln!("cannot write evidence {path}: {e}");
             return 2;
